@@ -221,6 +221,9 @@ structure St where
   snap : List (String × String) := []
   /-- a restart happened since the snapshot was started -/
   snapRestart : Bool := false
+  /-- last `topic` answer of the implementation per (stream, topic): (topic size, per-partition (id, msgs, size)),
+  valid until the next state-changing operation -/
+  lastTopic : List ((Nat × Nat) × (Nat × List (Nat × Nat × Nat))) := []
 
 def bump (cov : List (String × Nat)) (k : String) : List (String × Nat) :=
   match cov.find? (fun e => e.1 == k) with
@@ -305,6 +308,104 @@ def snapCheck (st : St) (toks : List String) (opS impl : String) : List (String 
   else if isIdentity then (st.snap, st.snapRestart || op == "restart", none)
   else ([], false, none)
 
+/-- parse the implementation's `topic` answer: `ok id:name:n:exp:max:repl:msgs:size p1,p2…`, p = `id:cur:msgs:size:segs` -/
+def parseTopicAnswer (impl : String) : Option (Nat × Nat × Nat × List (Nat × Nat × Nat)) :=
+  match impl.splitOn " " with
+  | "ok" :: hd :: rest =>
+    match hd.splitOn ":" with
+    | [id, _, _, _, _, _, msgs, size] => do
+      let id ← id.toNat?; let msgs ← msgs.toNat?; let size ← size.toNat?
+      let parts := ((rest.headD "").splitOn ",").filterMap (fun e => match e.splitOn ":" with
+        | [pid, _, m, sz, _] => do pure ((← pid.toNat?), (← m.toNat?), (← sz.toNat?))
+        | _ => none)
+      pure (id, msgs, size, parts)
+    | _ => none
+  | _ => none
+
+/-- C16 oracles on one `topic` answer: topic figures are the sums over its partitions, and each
+partition's message count equals the number of messages the specification retains -/
+def figuresCheck (st : St) (sid : Nat) (impl : String) : List String :=
+  match parseTopicAnswer impl with
+  | none => []
+  | some (tid, msgs, size, parts) =>
+    let sumM := (parts.map (fun e => e.2.1)).sum
+    let sumS := (parts.map (fun e => e.2.2)).sum
+    (if sumM != msgs || sumS != size then
+      [s!"SPEC-VIOL {st.line} class=figures-sum topic={sid}/{tid} reported msgs={msgs} size={size} but partitions sum to msgs={sumM} size={sumS}"] else []) ++
+    parts.filterMap (fun e =>
+      match st.spec.get (sid, tid, e.1) with
+      | none => none
+      | some sp => if sp.msgs.length != e.2.1 then
+          some s!"SPEC-VIOL {st.line} class=figures-count partition={sid}/{tid}/{e.1} reported msgs={e.2.1} retained={sp.msgs.length}"
+        else none)
+
+/-- `ls` answer → (path, size) list -/
+def parseLs (impl : String) : List (String × Nat) :=
+  ((impl.splitOn " ").drop 1).filterMap (fun e => match e.splitOn "=" with
+    | [pth, n] => n.toNat?.map (fun k => (pth, k))
+    | _ => none)
+
+/-- C16: the size reported for a partition equals what is stored: bytes of the retained messages plus
+one 24-byte header per stored batch (the number of stored batches is the index file size / 16) -/
+def sizeVsFiles (st : St) (impl : String) : List String :=
+  let files := parseLs impl
+  (st.lastTopic.map (fun te =>
+    let sid := te.1.1; let tid := te.1.2
+    te.2.2.filterMap (fun pe =>
+      let pfx := s!"streams/{sid}/topics/{tid}/partitions/{pe.1}/"
+      let idxBytes := ((files.filter (fun f => f.1.startsWith pfx && f.1.endsWith ".index")).map (·.2)).sum
+      match st.spec.get (sid, tid, pe.1) with
+      | none => none
+      | some sp =>
+        let expect := sumSizes sp.msgs + 24 * (idxBytes / 16)
+        if expect != pe.2.2 then
+          some s!"SPEC-VIOL {st.line} class=figures-size partition={sid}/{tid}/{pe.1} reported size={pe.2.2} stored={expect} (retained message bytes {sumSizes sp.msgs} + 24 x {idxBytes / 16} stored batches)"
+        else none))).flatten
+
+/-- C15: the size gate, judged on the implementation's own last reported topic size -/
+def gateCheck (st : St) (op : Op) (impl : String) : List String :=
+  match op with
+  | .send si ti _ msgs =>
+    if msgs.isEmpty then [] else
+    match st.sys.findStream si with
+    | .error _ => []
+    | .ok s => match s.findTopic ti with
+      | .error _ => []
+      | .ok t =>
+        if t.parts.isEmpty then [] else
+        match st.lastTopic.find? (fun e => e.1 = (s.id, t.id)) with
+        | none => []
+        | some e =>
+          let refused := impl == "err topic_full"
+          let must := match t.maxSize with
+            | some m => decide (m ≤ e.2.1) && !st.sys.scfg.deleteOldest
+            | none => false
+          if refused != must then
+            [s!"SPEC-VIOL {st.line} class=gate topic={s.id}/{t.id} size={e.2.1} limit={t.maxSize} delete_oldest={st.sys.scfg.deleteOldest} impl={impl}"]
+          else []
+  | _ => []
+
+/-- C14: legality of what a maintenance pass removed, judged on the specification state: every
+removed message is older than the topic's expiry — unless the topic has a size limit and
+oldest-segment deletion is on (size clean-up, C15) -/
+def retentionCheck (st : St) (effs : List Effect) : List String :=
+  effs.filterMap (fun e => match e with
+    | .dropped k n =>
+      match st.spec.get k with
+      | none => none
+      | some sp =>
+        let gone := sp.msgs.take n
+        let expired := match sp.expiry with
+          | some ex => gone.all (fun m => m.ts + ex ≤ st.sys.now)
+          | none => false
+        let sizeCleanup := st.sys.scfg.deleteOldest &&
+          (match find? st.sys.streams k.1 with
+            | some s => (match find? s.topics k.2.1 with | some t => t.maxSize.isSome | none => false)
+            | none => false)
+        if expired || sizeCleanup then none else
+          some s!"SPEC-VIOL {st.line} class=retention-illegal partition={k.1}/{k.2.1}/{k.2.2} removed {n} messages not all expired"
+    | _ => none)
+
 def stepLine (st : St) (raw : String) : St × List String :=
   let st := { st with line := st.line + 1 }
   let (opS, implS) := match raw.splitOn "\t" with
@@ -320,7 +421,11 @@ def stepLine (st : St) (raw : String) : St × List String :=
     | some cls => [s!"SPEC-VIOL {st.line} class={cls} op={opS.trimAscii.toString} expected=(its own earlier answer) impl={implS}"]
   let st := { st with specViol := st.specViol + msgs0.length }
   match parseOp st.enc toks (implS.splitOn " ") with
-  | none => (st, msgs0)                    -- not modelled (connection handling, ls, scan, …)
+  | none =>                                -- not modelled (connection handling, ls, scan, …)
+    if toks.headD "" == "ls" then
+      let v := sizeVsFiles st implS
+      ({ st with specViol := st.specViol + v.length }, msgs0 ++ v)
+    else (st, msgs0)
   | some op =>
     let (sys', out, effs) := step st.sys op
     let mtxt := showOut st.enc out
@@ -335,17 +440,36 @@ def stepLine (st : St) (raw : String) : St × List String :=
     let cov := match out with
       | .err e => bump cov ("err:" ++ e)
       | _ => cov
+    let cov := effs.foldl (fun c e => bump c ("br:" ++ (match e with
+      | .created .. => "part-created" | .deleted .. => "part-deleted" | .appended .. => "appended"
+      | .purged .. => "purged" | .dropped .. => "retention-dropped" | .restarted .. => "part-restarted"
+      | .setExpiry .. => "expiry-set" | .offStored .. => "offset-stored" | .offDeleted .. => "offset-deleted"))) cov
     let msgs1 := if mtxt == itxt then [] else
       [s!"CORR-DIFF {st.line} kind={diffKind toks mtxt itxt} op={opS.trimAscii.toString} model={mtxt} impl={itxt}"]
+    let extra : List String :=
+      gateCheck st op itxt ++ retentionCheck st effs ++
+      (match op with
+        | .topicInfo si _ => (match st.sys.findStream si with
+            | .ok s => figuresCheck st s.id itxt
+            | .error _ => [])
+        | _ => [])
+    let isMut := !(toks.headD "" == "poll" && toks.getLast? == some "0") &&
+      !(["topic", "stats", "get-offset", "clock", "streams", "stream", "topics", "groups", "group", "me"].contains (toks.headD ""))
+    let lastTopic := if isMut then [] else st.lastTopic
+    let lastTopic := match op with
+      | .topicInfo si _ => (match st.sys.findStream si, parseTopicAnswer itxt with
+          | .ok s, some (tid, _, size, parts) => ((s.id, tid), (size, parts)) :: lastTopic.filter (fun e => e.1 ≠ (s.id, tid))
+          | _, _ => lastTopic)
+      | _ => lastTopic
     let sv := specCheck st op itxt
     let msgs2 := match sv with
       | none => []
       | some (cls, exp) =>
         [s!"SPEC-VIOL {st.line} class={cls}{if mtxt == itxt then ":model-agrees" else ""} op={opS.trimAscii.toString} expected={exp} impl={itxt}"]
     ({ st with sys := sys', spec := applyEffects st.sys.cfg st.spec effs, cov := cov
-               corr := st.corr + msgs1.length, specViol := st.specViol + msgs2.length
-               modelled := st.modelled + 1 },
-      msgs0 ++ msgs1 ++ msgs2)
+               corr := st.corr + msgs1.length, specViol := st.specViol + msgs2.length + extra.length
+               modelled := st.modelled + 1, lastTopic := lastTopic },
+      msgs0 ++ msgs1 ++ msgs2 ++ extra)
 
 def parseCfg (line : String) : St :=
   let kv := kvs (line.splitOn " ")
